@@ -13,7 +13,9 @@ EXTENDS Integers, Sequences, FiniteSets, TLC, Json
 
 CONSTANTS Scripts,    \* names of the scripts loaded together
           Missing,    \* a name that no script has
-          MaxCalls    \* use() calls per script
+          MaxCalls,   \* use() calls per script
+          Relink      \* TRUE: the scripts were linked before (a hot reload): every use() call still carries the binding an
+                      \* earlier load left on it - to an object that is not part of this set ("stale")
 
 Targets == Scripts \cup {Missing}
 CallSeqs == UNION {[1..n -> Targets] : n \in 0..MaxCalls}
@@ -57,7 +59,9 @@ Init == /\ status \in [Scripts -> Statuses]
         /\ calls \in [Scripts -> CallSeqs]
         /\ \A s \in Scripts : status[s] # "ok" => calls[s] = <<>>   \* canonical: broken scripts carry no calls
         /\ visited = <<>> /\ stk = <<>> /\ path = <<>> /\ onPath = {}
-        /\ ret = {} /\ errs = <<>> /\ bind = {} /\ err = NoErr /\ pc = "driver"
+        /\ ret = {} /\ errs = <<>> /\ err = NoErr /\ pc = "driver"
+        /\ bind = IF Relink THEN {<<c[1], c[2], "stale">> : c \in {d \in Scripts \X (1..MaxCalls) : d[2] \in DOMAIN calls[d[1]]}}
+                   ELSE {}
 
 \* finishing the root (stack became empty)
 RootOk(r) == /\ ret' = ret \cup {r} /\ errs' = errs /\ pc' = "driver"
@@ -96,7 +100,8 @@ Early == /\ pc = "early"
 CurTarget == calls[Top.name][Top.i]
 
 Bind == /\ pc = "loop" /\ Top.i <= Len(calls[Top.name]) /\ OK(CurTarget)
-        /\ bind' = bind \cup {<<Top.name, Top.i, CurTarget>>}
+        \* a call site carries ONE binding: the script of that name in the set being linked replaces whatever was there
+        /\ bind' = {b \in bind : ~(b[1] = Top.name /\ b[2] = Top.i)} \cup {<<Top.name, Top.i, CurTarget>>}
         /\ stk' = Append(stk, [name |-> CurTarget, i |-> 1])
         /\ pc' = "enter"
         /\ UNCHANGED <<cfgvars, visited, path, onPath, ret, errs, err>>
@@ -145,7 +150,10 @@ PathMatchesStack ==
        /\ Len(path) = n /\ \A k \in 1..n : path[k] = stk[k].name
 \* only fully resolved scripts are recorded
 RetSound == \A s \in ret : ShouldAccept(s)
-BindCorrect == \A b \in bind : OK(b[1]) /\ b[2] \in DOMAIN calls[b[1]] /\ calls[b[1]][b[2]] = b[3]
+BindCorrect == \A b \in bind : OK(b[1]) /\ b[2] \in DOMAIN calls[b[1]] /\ (calls[b[1]][b[2]] = b[3] \/ (Relink /\ b[3] = "stale"))
+\* after the load every use() call of an accepted script is bound to the script of that name IN THIS SET - nothing an earlier
+\* load left behind survives on it
+BoundToLoadedSet == pc = "done" => \A b \in bind : b[1] \in ret => b[3] = calls[b[1]][b[2]]
 \* exactly the acyclic, fully resolvable scripts are accepted - whatever the visit order was
 OrderIndependent ==
   pc = "done" =>
